@@ -53,3 +53,17 @@ Definition fragment_request (idx fn tot : Z) : option str :=
 Definition name_codes (s : string) : list Z := map (fun c => Z.of_nat (nat_of_ascii c)) (lit s).
 Definition registered (verb code : Z) (name : string) : bool :=
   existsb (fun r => let '(v, c, n) := r in (v =? verb) && (c =? code) && (if list_eq_dec Z.eq_dec n (name_codes name) then true else false)) API_MAP.
+
+(* the getters with a fixed payload: get_schedule_version / get_system_language / get_system_time ("00"), get_system_mode ("FF"), and the three
+   DHW getters (get_dhw_mode / get_dhw_params / get_dhw_temp), whose payload is _check_idx(dhw_idx) -- 00, or 01 for a second cylinder *)
+Inductive fgetter := FDhwMode | FDhwParams | FDhwTemp | FSchedVersion | FLanguage | FSystemMode | FSystemTime.
+Definition all_fgetters := [FDhwMode; FDhwParams; FDhwTemp; FSchedVersion; FLanguage; FSystemMode; FSystemTime].
+Definition fg_code (g : fgetter) : Z :=
+  match g with FDhwMode => 0x1F41 | FDhwParams => 0x10A0 | FDhwTemp => 0x1260 | FSchedVersion => 0x0006 | FLanguage => 0x0100
+             | FSystemMode => 0x2E04 | FSystemTime => 0x313F end.
+Definition fg_name (g : fgetter) : string :=
+  match g with FDhwMode => "get_dhw_mode" | FDhwParams => "get_dhw_params" | FDhwTemp => "get_dhw_temp" | FSchedVersion => "get_schedule_version"
+             | FLanguage => "get_system_language" | FSystemMode => "get_system_mode" | FSystemTime => "get_system_time" end.
+Definition fg_is_dhw (g : fgetter) : bool := match g with FDhwMode | FDhwParams | FDhwTemp => true | _ => false end.
+Definition fgetter_payload (g : fgetter) (dhw_idx : Z) : option str :=
+  if fg_is_dhw g then check_idx dhw_idx else Some (match g with FSystemMode => lit "FF" | _ => lit "00" end).
